@@ -800,7 +800,9 @@ def run_shard(item):
     elif kind == "refuse_values":
         w = item["w"]
         vals = D.out_of_range((1 << (8 * w)) - 1, item["n"])
-        ctors = [c for c in REFUSE_CTORS if w or c in ("UnsignedByteField", "value-setter")]
+        # width 0: a non-zero value must be refused by the width-dispatching generator as well (whether it builds the EMPTY field at all
+        # is the quirk of ASSUMPTIONS; what it must never do is hand out a field for a value that does not fit zero octets)
+        ctors = [c for c in REFUSE_CTORS if w or c in ("UnsignedByteField", "value-setter", "ByteFieldGenerator.from_int")]
         for c in ctors:
             for v in vals:
                 check_refuse_value(rec, c, w, v)
